@@ -403,6 +403,8 @@ def b_list(I, v=None):
         c = v.copy()
         c.immutable = False
         return c
+    if isinstance(v, SV) and isinstance(v.ty, Abs):
+        return v  # list(xs) of an abstract sequence value (e.g. a token sequence): the same abstract value
     return PyList(I.concrete_iter(v))
 
 
@@ -665,6 +667,9 @@ def builtin_method(I: Interp, base, name, args, kwargs, node=None):
             c = base.copy()
             c.immutable = False
             return c
+        if name == "sort" and I.V.c.ghost.get("slist_sort"):
+            # list.sort() of a list of unknown length: only through the sidecar's model of the sort (an assumed contract, X9)
+            return I.V.c.ghost["slist_sort"](I, base, args, kwargs, node)
         if base.is_str:
             return str_method_sym(I, base, name, args, kwargs, node)
     if isinstance(base, str):
